@@ -18,6 +18,7 @@ mod model;
 mod plan;
 mod probes;
 mod query;
+mod snapshot;
 mod turnstile;
 mod upgrade;
 mod util;
@@ -35,6 +36,10 @@ pub fn init_process() {
         // n_trees < dimension <= 130 (see DESIGN.md 3.3); every task must be able to arrive at once
         rayon::ThreadPoolBuilder::new().num_threads(PHYSICAL_POOL).build_global().expect("rayon global pool");
         ctx::install_hooks();
+        // arroy's default temp files (tempfile::tempfile()) land below this process's work directory
+        let tmp = driver::workdir_base().join("tmp");
+        std::fs::create_dir_all(&tmp).expect("work dir");
+        std::env::set_var("TMPDIR", &tmp);
         // panics inside arroy are caught and reported as findings; keep stderr quiet
         if std::env::var("VERIF_PANIC_MSG").is_err() {
             std::panic::set_hook(Box::new(|_| {}));
